@@ -56,7 +56,14 @@ func verifC01Static(ctx context.Context) {
 	dg := verifVAAOf(k, 0).SigningMsg()
 	digest := dg[:]
 	advAt := zzverif.Len("advAt", 0, 1, 2) // adversarial observation: before the local observation / in the middle / last
-	adv := &gossipv1.SignedObservation{Addr: zzverif.Blob("adv.addr", 20), Hash: zzverif.Blob("adv.hash", 32), Signature: zzverif.Blob("adv.sig", 65)}
+	// every byte of the adversarial observation is symbolic; the candidates only tell the replay which NATIVE bytes to use
+	// when the solver makes the address equal to a key's address or the hash equal to the message digest
+	var addrs [][]byte
+	for j := 0; j <= n; j++ {
+		a := zzverif.AddrOf(j)
+		addrs = append(addrs, a[:])
+	}
+	adv := &gossipv1.SignedObservation{Addr: zzverif.BlobLike("adv.addr", 20, addrs...), Hash: zzverif.BlobLike("adv.hash", 32, digest), Signature: zzverif.Blob("adv.sig", 65)}
 
 	early := zzverif.Len("early", 0, 1, 2, 3, 4, 9) // one member's observation arrives before the node has seen the message (9: none)
 	if early != 9 {
